@@ -540,6 +540,52 @@ fn reaches_list_of_heap_inner(s: &Schema, sh: &Shape, struct_owns_heap: &dyn Fn(
     }
 }
 
+/// Does the value hold, at a position the reader types as a list of heap-owning elements, a list
+/// with at least TWO elements? The recorded list-decode defect leaks elements 0..k when element
+/// k >= 1 fails; a strict prefix of the encoding of a value without such a list cannot show it.
+pub fn value_has_heap_list_ge2(s: &Schema, sh: &Shape, x: &TVal, keep: bool) -> bool {
+    let soh = |d: usize| keep && !matches!(s.defs[d].kind, Kind::Enum(_) | Kind::Typedef(_));
+    fn heap(s: &Schema, ty: &Ty, seen: &mut Vec<usize>, soh: &dyn Fn(usize) -> bool) -> bool {
+        match s.resolve(ty) {
+            Ty::Str | Ty::Bin | Ty::List(_) | Ty::Set(_) | Ty::Map(..) => true,
+            Ty::Ref(d) => {
+                if soh(*d) || seen.contains(d) {
+                    return true;
+                }
+                seen.push(*d);
+                let def = &s.defs[*d];
+                match def.kind {
+                    Kind::Enum(_) => false,
+                    _ => def.fields.iter().any(|f| heap(s, &f.ty, seen, soh)),
+                }
+            }
+            _ => false,
+        }
+    }
+    fn in_fields(s: &Schema, fields: &[Field], fs: &[(i16, TVal)], soh: &dyn Fn(usize) -> bool) -> bool {
+        fs.iter().any(|(id, v)| match fields.iter().find(|f| f.id == *id) {
+            Some(f) if s.tt(&f.ty) == v.tt() => go(s, &f.ty, v, soh),
+            _ => false,
+        })
+    }
+    fn go(s: &Schema, ty: &Ty, v: &TVal, soh: &dyn Fn(usize) -> bool) -> bool {
+        match (s.resolve(ty), v) {
+            (Ty::List(t), TVal::List(_, xs)) => (xs.len() >= 2 && heap(s, t, &mut vec![], soh)) || xs.iter().any(|x| go(s, t, x, soh)),
+            (Ty::Set(t), TVal::Set(_, xs)) => xs.iter().any(|x| go(s, t, x, soh)),
+            (Ty::Map(k, vt), TVal::Map(_, _, es)) => es.iter().any(|(a, b)| go(s, k, a, soh) || go(s, vt, b, soh)),
+            (Ty::Ref(d), TVal::Struct(fs)) => in_fields(s, &s.defs[*d].fields, fs, soh),
+            _ => false,
+        }
+    }
+    match sh {
+        Shape::Def(i) => go(s, &Ty::Ref(*i), x, &soh),
+        _ => match x {
+            TVal::Struct(fs) => in_fields(s, &s.target_fields(sh).0, fs, &soh),
+            _ => false,
+        },
+    }
+}
+
 /// struct / exception definitions named directly (not through a container or a
 /// typedef) as a method argument, return or throws type: pilota-build emits a
 /// different sync decoder for these when `keep_unknown_fields` is on
@@ -563,6 +609,57 @@ pub fn arg_defs(s: &Schema) -> Vec<usize> {
         }
     }
     out
+}
+
+/// Can decoding `x` as `sh` make the keep-mode argument-type decoder take its "rest of the
+/// buffer" exit on the UNCHANGED generator? That exit is taken when the countdown of declared
+/// fields of an `arg_defs` struct reaches zero, i.e. when an instance of such a struct carries
+/// at least as many occurrences of declared (id, wire type) pairs as the struct declares fields
+/// (a struct without fields: always). Inputs for which this is false cannot show that defect.
+/// `filled`: the bytes that are decoded come from pilota's own encoder, which writes every
+/// non-optional field (defaults filled in), not from the reference encoding of `x` itself.
+pub fn fastpath_reachable_in(s: &Schema, sh: &Shape, x: &TVal, filled: bool) -> bool {
+    let args = arg_defs(s);
+    if args.is_empty() {
+        return false;
+    }
+    fn in_fields(s: &Schema, fields: &[Field], fs: &[(i16, TVal)], args: &[usize], filled: bool) -> bool {
+        fs.iter().any(|(id, v)| match fields.iter().find(|f| f.id == *id) {
+            Some(f) if s.tt(&f.ty) == v.tt() => go(s, &f.ty, v, args, filled),
+            _ => false,
+        })
+    }
+    fn go(s: &Schema, ty: &Ty, v: &TVal, args: &[usize], filled: bool) -> bool {
+        match (s.resolve(ty), v) {
+            (Ty::List(t), TVal::List(_, xs)) | (Ty::Set(t), TVal::Set(_, xs)) => xs.iter().any(|x| go(s, t, x, args, filled)),
+            (Ty::Map(k, vt), TVal::Map(_, _, es)) => es.iter().any(|(a, b)| go(s, k, a, args, filled) || go(s, vt, b, args, filled)),
+            (Ty::Ref(d), TVal::Struct(fs)) => {
+                let def = &s.defs[*d];
+                if !matches!(def.kind, Kind::Struct | Kind::Exception | Kind::Union) {
+                    return false;
+                }
+                let mut matching = fs.iter().filter(|(id, v)| def.fields.iter().any(|f| f.id == *id && s.tt(&f.ty) == v.tt())).count();
+                if filled {
+                    matching += def.fields.iter().filter(|f| f.req != Req::Optional && !fs.iter().any(|(id, _)| *id == f.id)).count();
+                }
+                if args.contains(d) && matching >= def.fields.len() {
+                    return true;
+                }
+                in_fields(s, &def.fields, fs, args, filled)
+            }
+            _ => false,
+        }
+    }
+    match sh {
+        Shape::Def(i) => go(s, &Ty::Ref(*i), x, &args, filled),
+        _ => {
+            let (fields, _, _) = s.target_fields(sh);
+            match x {
+                TVal::Struct(fs) => in_fields(s, &fields, fs, &args, filled),
+                _ => false,
+            }
+        }
+    }
 }
 
 /// does decoding a value of this shape run the decoder of a definition in `arg_defs`?
